@@ -226,12 +226,12 @@ theorem crnLeaves_inv (sel : SelD) (G : LGraph) {ids : List Nat} (hn : ids.Nodup
         rw [ih _ _ (irIndividualise_ok hn hr hv hc).1 l hl, crnRefine_inv sel G _ hq1, hq2, hP]
 
 /-- **All leaves of one search tree agree position by position on the invariant.** -/
-theorem crnRootLeaves_inv (sel : SelD) (G : LGraph) (hn : G.ids.Nodup) (hd : CrnDefined sel G) :
+theorem crnRootLeaves_inv (sel : SelD) (G : LGraph) (hn : G.ids.Nodup) :
     ∀ l ∈ crnRootLeaves sel G, ∀ l' ∈ crnRootLeaves sel G,
       l.2.map (crnInv sel G) = l'.2.map (crnInv sel G) := by
   intro l hl l' hl'
-  rw [crnLeaves_inv sel G hn _ _ _ (crnInitPart_ok sel G hd) l hl,
-    crnLeaves_inv sel G hn _ _ _ (crnInitPart_ok sel G hd) l' hl']
+  rw [crnLeaves_inv sel G hn _ _ _ (crnInitPart_ok sel G) l hl,
+    crnLeaves_inv sel G hn _ _ _ (crnInitPart_ok sel G) l' hl']
 
 /-! ## Part 2: attribute look-ups recovered from label items and signature items -/
 
@@ -502,12 +502,12 @@ theorem crnIso_of_equal_labels (sel : SelD) (G : LGraph) (hn : G.ids.Nodup) (hok
 
 /-- **Two leaves of one search tree with the same label differ by a structure-preserving
 self-map** (self-loops included). -/
-theorem crnIso_of_leaves (sel : SelD) (G : LGraph) (hn : G.ids.Nodup) (hd : CrnDefined sel G)
+theorem crnIso_of_leaves (sel : SelD) (G : LGraph) (hn : G.ids.Nodup)
     (hok : CrnAttrOK sel G) (l l' : List Nat × List Nat) (hl : l ∈ crnRootLeaves sel G) (hl' : l' ∈ crnRootLeaves sel G)
     (hlab : crnLeafLabel sel G l = crnLeafLabel sel G l') :
     CrnIso sel G G (posMap l.2 l'.2) ∧ l.2.map (posMap l.2 l'.2) = l'.2 :=
-  crnIso_of_equal_labels sel G hn hok l.2 l'.2 (crnRootLeaves_perm sel G hn hd l hl)
-    (crnRootLeaves_perm sel G hn hd l' hl') hlab (crnRootLeaves_inv sel G hn hd l hl l' hl')
+  crnIso_of_equal_labels sel G hn hok l.2 l'.2 (crnRootLeaves_perm sel G hn l hl)
+    (crnRootLeaves_perm sel G hn l' hl') hlab (crnRootLeaves_inv sel G hn l hl l' hl')
 
 /-! ## `CrnIso` and the specification `IsIsoF` -/
 
